@@ -462,9 +462,13 @@ def partial_worker(case):
         # nothing has happened to the netlists yet
         if ev is not None and e_full:
             h0 = e_full[0][0]
-            o, (pre, post), _, e_, pp = _run_with(scn, [h0], ev, veto=True)
+            o, dg, _, e_, pp = _run_with(scn, [h0], ev, veto=True)
             runs += 1
-            if o != ("raised", "Veto"):
+            probs += [("%s:veto:%s@%s" % (c, h0, name), dd) for c, dd in pp]
+            pre, post = dg if dg is not None else (None, None)   # (None: the seed itself failed under this listener, reported above)
+            if dg is None:
+                pass
+            elif o != ("raised", "Veto"):
                 probs.append(("veto-ignored:%s@%s" % (h0, name), "outcome %s" % (o,)))
             elif pre != post:
                 probs.append(("vetoed-change-left-traces:%s@%s" % (h0, name), "the first announcement of the call was refused by a listener, yet the netlists differ from before the call"))
